@@ -143,6 +143,13 @@ func TestC08Child(t *testing.T) {
 		if spec.NSec == 0 {
 			spec.NSec = 1
 		}
+		if i%3 == 0 {
+			// a trailing public input that no constraint uses and whose value is 0: a decoder that
+			// pads a short vector with zeros reproduces exactly this witness
+			spec.NPub++
+			spec.UnusedPub = append(spec.UnusedPub, spec.NPub-1)
+			spec.ZeroPub = []int{spec.NPub - 1}
+		}
 		tr := c.build(spec, backend)
 		if tr == nil {
 			continue
@@ -506,6 +513,19 @@ func (c *child) witnessBytes(tr *triple) {
 				try("header", fmt.Sprintf("%s header (%d,%d)->(%d,%d), vector holds %d", src.name, src.np, src.ns, hp, hs, nvec), b, inconsistent)
 			}
 		}
+		// header sums that wrap modulo 2^32 around a payload shortened by k elements
+		for k := 1; k <= 2 && k < nvec; k++ {
+			b := append([]byte{}, enc[:len(enc)-k*elemSize(enc, nvec)]...)
+			binary.BigEndian.PutUint32(b[8:], uint32(nvec-k))
+			binary.BigEndian.PutUint32(b[0:], uint32(src.np))
+			binary.BigEndian.PutUint32(b[4:], uint32(src.ns)-uint32(k)) // wraps when ns < k
+			hs := uint32(src.ns) - uint32(k)
+			try("header-wrap", fmt.Sprintf("%s header (%d,%d)->(%d,%d), vector holds %d", src.name, src.np, src.ns, src.np, hs, nvec-k), b, uint64(src.np)+uint64(hs) != uint64(nvec-k))
+			b2 := append([]byte{}, b...)
+			binary.BigEndian.PutUint32(b2[0:], uint32(src.np)-uint32(k))
+			binary.BigEndian.PutUint32(b2[4:], uint32(src.ns))
+			try("header-short", fmt.Sprintf("%s header (%d,%d) with a vector of %d", src.name, src.np-k, src.ns, nvec-k), b2, false)
+		}
 		for _, vl := range []uint32{0, uint32(nvec + 1), uint32(nvec + 2), 255, 65535} {
 			if nvec > 0 {
 				b := append([]byte{}, enc...)
@@ -546,4 +566,12 @@ func (c *child) otherCurveWitness(tr *triple) {
 		r.Count("verify.error", 1)
 		r.Count("verify.error.other-curve-witness", 1)
 	}
+}
+
+// elemSize returns the byte size of one vector element of a witness encoding (header 8 + prefix 4 + n elements).
+func elemSize(enc []byte, n int) int {
+	if n == 0 {
+		return 0
+	}
+	return (len(enc) - 12) / n
 }
